@@ -96,6 +96,15 @@ def genPcm (n : Nat) : G Bytes := do
     | _ => listOf n (do return u8 ((← below 32) + 240))
   return if b.take 5 = Mod.adpcmTag then (0 : UInt8) :: b.drop 1 else b
 
+/-- cheap deterministic PCM that differs per sample (`seed`) and per offset, including offsets that differ by
+64 KiB or 1 MiB (so data fetched from a wrong file position is visible) -/
+def bigPcm (seed n : Nat) : Bytes :=
+  (List.range n).map fun k => u8 (k * 37 + k / 256 * 11 + k / 65536 * 7 + seed * 101 + 13)
+
+/-- size classes: 0..2 ordinary; 3 = long IT-compressed samples (several blocks); 5 = sample data beyond 64 KiB;
+6 = sample data beyond 1 MiB; 7, 8 = XM regression witnesses -/
+def baseSize (size : Nat) : Nat := if size ≥ 3 then 0 else size
+
 namespace GenMod
 open Mod
 
@@ -180,14 +189,6 @@ def genLoop (len : Nat) : G (Nat × Nat) := do
 
 def hashNat (seed : UInt64) (i : Nat) : Nat := (hashFx seed i).1.toNat
 
-/-- cheap deterministic PCM that differs per sample (`seed`) and per offset, including offsets that differ by
-64 KiB or 1 MiB (so data fetched from a wrong file position is visible) -/
-def bigPcm (seed n : Nat) : Bytes :=
-  (List.range n).map fun k => u8 (k * 37 + k / 256 * 11 + k / 65536 * 7 + seed * 101 + 13)
-
-/-- size classes: 0..2 ordinary; 3 = long IT-compressed samples (several blocks); 5 = sample data beyond 64 KiB;
-6 = sample data beyond 1 MiB; 7, 8 = XM regression witnesses -/
-def baseSize (size : Nat) : Nat := if size ≥ 3 then 0 else size
 
 namespace GenS3m
 open S3m
@@ -245,7 +246,8 @@ def gen (special : Nat) : G (Module × Opts × String) := do
   let maxLen := if size = 0 then 40 else if size = 1 then 400 else 3000
   let nins := if special = 5 ∨ special = 6 then max nins 5 else nins
   let slots ← (List.range nins).mapM fun i => genSlot i maxLen
-  let slots := if special = 5 ∨ special = 6 then bigSlots special (← below 1000) slots else slots
+  let bseed ← below 1000
+  let slots := if special = 5 ∨ special = 6 then bigSlots special bseed slots else slots
   let name ← genName 28
   let spd ← range 1 255
   let bpm ← if (← chance 70) then range 32 255 else range 20 255
@@ -459,7 +461,8 @@ def gen (special : Nat) : G (Module × Opts × String) := do
   let isSpecial := special = 3 ∨ special = 5 ∨ special = 6
   let nsmp := if isSpecial then max nsmp 5 else nsmp
   let slots ← (List.range nsmp).mapM fun i => genSlot i maxLen
-  let slots := if isSpecial then bigSlots special (← below 1000) slots else slots
+  let bseed ← below 1000
+  let slots := if isSpecial then bigSlots special bseed slots else slots
   let wseed ← next
   let wmode ← below 3
   let compRate ← below 3
